@@ -318,7 +318,7 @@ def check_curve(case):
 PARTS = [
     Part("solver-helpers-curve", lambda tier: entry_strategy(), check_entry, {"quick": 3000, "thorough": 100000}, floor={"quick": 400, "thorough": 10000}),
     Part("ideal-process", lambda tier: procs.process_case(kinds=("ideal-iso", "ideal-noniso"), removal=(1e-5, 0.1), max_steps=6), check_process,
-         {"quick": 1600, "thorough": 60000}, floor={"quick": 200, "thorough": 6000}),
+         {"quick": 1600, "thorough": 60000}, floor={"quick": 170, "thorough": 5000}),
     Part("non-ideal-process", lambda tier: procs.process_case(kinds=("nonideal-iso", "nonideal-noniso"), removal=(1e-5, 0.1), max_steps=5), check_process,
          {"quick": 200, "thorough": 5000}, floor={"quick": 30, "thorough": 700}, shrink={"quick": False, "thorough": True}),
     Part("non-ideal-curve-measurements", lambda tier: curve_strategy(), check_curve, {"quick": 200, "thorough": 5000},
